@@ -57,7 +57,8 @@ def _try(fn, v):
 
 
 def _enum_like(members_vals, v, wrap):
-    """members_vals: list of (literal, result)."""
+    """members_vals: list of (literal, result).  wrap == 'enum': an enum converts through the types of its values, so a
+    float / complex that merely equals an int value is NOT a member (strictness); a bool is an int (UNSPEC)."""
     eqs = []
     try:
         for lit, res in members_vals:
@@ -68,6 +69,8 @@ def _enum_like(members_vals, v, wrap):
     except Exception:
         pass
     if eqs:
+        if wrap == 'enum' and kind(v) in ('float', 'complex') and all(type(e) is int for e in eqs):
+            return _rej('float/complex is not an int-valued member')
         return _unspec('literal_eq_other_type')
     return _rej('no member')
 
@@ -128,11 +131,11 @@ def ref_leaf(name, v):
                'pathlike': pathlib.PurePath}[name]
         return _try(cls, v) if k == 'str' else _rej('kind')
     if name == 'enum_int':
-        return _enum_like([(m.value, m) for m in grammar.EnumInt], v, None)
+        return _enum_like([(m.value, m) for m in grammar.EnumInt], v, 'enum')
     if name == 'enum_str':
         return _enum_like([(m.value, m) for m in grammar.EnumStr], v, None)
     if name == 'enum_mixed':
-        return _enum_like([(m.value, m) for m in grammar.EnumMixed], v, None)
+        return _enum_like([(m.value, m) for m in grammar.EnumMixed], v, 'enum')
     if name == 'lit_str':
         return _enum_like([('a', 'a'), ('b', 'b')], v, None)
     if name == 'lit_mixed':
